@@ -58,7 +58,8 @@ static int native_threads() { int n = 0; DIR * d = opendir("/proc/self/task"); i
 static bool threads_back_to(int base) { for (int i = 0; i < 200; i++) { if (native_threads() == base) return true; struct timespec ts = {0, 2000000}; nanosleep(&ts, nullptr); } return false; }
 
 static std::string dir;
-static const int sizes[] = {0, 1, 9, 10, 11, 50};
+static const int sizes[] = {0, 1, 9, 10, 11, 50, 12000};      // 12000 objects = 576 KB in 128 KiB containers: more than the pipeline buffers, so workers block
+static const int NSIZES = 7;
 
 struct Outcome { std::string err; std::string errkey; };
 
@@ -146,7 +147,7 @@ int main(int argc, char ** argv) {
     for (int s : sizes) {   // valid input files around the queue capacity, written by the independent writer
         std::string p = dir + "/in_" + std::to_string(s) + ".blf";
         twin::Bytes st; for (int i = 0; i < s; i++) { twin::Bytes o = twin::can_message(1000 + i); st.insert(st.end(), o.begin(), o.end()); }
-        std::string t = p + "." + std::to_string(getpid()); twin::save(t, twin::wrap(st, 100, 0)); rename(t.c_str(), p.c_str());
+        std::string t = p + "." + std::to_string(getpid()); twin::save(t, twin::wrap(st, s > 1000 ? 0x20000 : 100, 0)); rename(t.c_str(), p.c_str());
     }
     std::vector<std::vector<int>> ex; { std::vector<int> cur; enumerate(0, cur, elen, ex); }
     if (std::string(argv[1]) == "count") { printf("%zu\n", ex.size()); return 0; }
@@ -163,7 +164,7 @@ int main(int argc, char ** argv) {
         wd::arm(25, "c13-history");
         Rng r(Rng::mix(seed ^ 0xC13, (uint64_t)idx));
         std::vector<int> h; int fsz;
-        if (idx < (long)ex.size()) { h = ex[idx]; fsz = sizes[idx % 6]; exhaustive_n++; }
+        if (idx < (long)ex.size()) { h = ex[idx]; fsz = sizes[idx % NSIZES]; exhaustive_n++; }
         else {
             int st = 0, len = 1 + r.below(12);
             for (int k = 0; k < len; k++) {
@@ -173,7 +174,7 @@ int main(int argc, char ** argv) {
                 h.push_back(s); st = next_state(st, s);
                 if (s == DESTROY) break;
             }
-            fsz = sizes[r.below(6)];
+            fsz = sizes[r.below(NSIZES)];
         }
         bool controlled = r.chance(1, 20);
         std::ostringstream hs; hs << "file=" << fsz << (controlled ? " controlled" : "") << ":"; for (int s : h) { hs << " " << symname[s]; if (s == READ) reads++; if (s == WRITE) writes++; }
